@@ -138,6 +138,66 @@ def observe(case, expected, rng):
           'lo01': fkey.key(-(1e-4 if case['dtype'] == 'float32' else 1e-8)), 'hi01': fkey.key(1.0 + (1e-4 if case['dtype'] == 'float32' else 1e-8))}
 
 
+
+def observe_model_input(case, expected, rng):
+  """The same case through the model-input converters (jnp_converters: continuous block + integer-coded categorical block,
+  optionally padded): the parameter p sits between a categorical and a continuous neighbour, so that routing a column to the
+  wrong block or the wrong parameter shows."""
+  from vizier import pyvizier as vz
+  from vizier.pyvizier import converters
+  from vizier.pyvizier.converters import padding
+  from vizier._src.jax import types as vt
+  shape = case['shape']['name']
+  sp1 = make_param(shape, case['shape'].get('cls'), rng)
+  pc = sp1.get('p')
+  prob = vz.ProblemStatement()
+  prob.search_space.root.add_categorical_param('a0', ['u', 'v', 'w'])
+  prob.search_space.add(pc)
+  prob.search_space.root.add_float_param('z9', 2.0, 3.0)
+  prob.metric_information.append(vz.MetricInformation('m', goal=vz.ObjectiveMetricGoal.MAXIMIZE))
+  dtype = np.float32 if case['dtype'] == 'float32' else np.float64
+  kw = {}
+  if case['pad']:          # here: feature / trial padding (the OOV padding of the one-hot converters does not exist)
+    kw['padding_schedule'] = padding.PaddingSchedule(num_trials=padding.PaddingType.POWERS_OF_2, num_features=padding.PaddingType.POWERS_OF_2)
+  conv = converters.TrialToModelInputConverter.from_problem(prob, scale=case['scale'], max_discrete_indices=case['thr'], dtype=dtype, **kw)
+  pts = points_of(pc, rng)
+  trials = [vz.Trial(parameters={'a0': 'uvw'[i % 3], 'p': v, 'z9': 2.0 + (i % 5) / 4.0}) for i, v in enumerate(pts)]
+  feats = conv.to_features(trials)
+  back = conv.to_parameters(feats)
+  tol = 1e-4          # the padded arrays are float32 unless JAX runs in x64 mode
+  rows = []
+  for i, (v, b) in enumerate(zip(pts, back)):
+    ok = set(b) == {'a0', 'p', 'z9'} and b['a0'].value == 'uvw'[i % 3] and abs(b['z9'].value - (2.0 + (i % 5) / 4.0)) < 1e-4
+    if ok and pc.type.name == 'DOUBLE':
+      ok = abs(b['p'].value - v) <= tol * max(1.0, abs(v), abs(pc.bounds[0]), abs(pc.bounds[1]))
+    elif ok:
+      ok = b['p'].value == v and (isinstance(v, str) == isinstance(b['p'].value, str))
+    rows.append({'feat': [fkey.key(0.0)], 'index': i, 'back_ok': bool(ok), 'near0': True, 'near1': True})
+  # arbitrary continuous values, every valid index in the integer-coded block
+  cont = np.asarray(feats.continuous.padded_array)
+  cat = np.asarray(feats.categorical.padded_array)
+  decoded = []
+  n_real_cat = len(conv.output_specs.categorical)
+  sizes = [int(spec.bounds[1]) - int(spec.bounds[0]) + 1 for spec in conv.output_specs.categorical]
+  for x in (-1e9, -0.5, 0.0, 0.3, 1.0, 1.5, 1e9, rng.uniform(-2, 3)):
+    c2 = np.full_like(cont, x)
+    k2 = np.zeros_like(cat)
+    for j in range(n_real_cat):
+      k2[:, j] = rng.randrange(0, max(1, sizes[j] - conv.output_specs.categorical[j].num_oovs))
+    import jax.numpy as jnp
+    arr = vt.ModelInput(feats.continuous.replace_array(jnp.asarray(c2)), feats.categorical.replace_array(jnp.asarray(k2)))
+    try:
+      params = conv.to_parameters(arr)[0]
+      if 'p' in params:
+        decoded.append({'present': True, 'v': fkey.value_record(params['p'].value)})
+      else:
+        decoded.append({'present': False, 'v': fkey.value_record(0)})
+    except Exception as e:  # pylint: disable=broad-except
+      decoded.append({'present': False, 'v': fkey.value_record(0), 'error': '%s: %s' % (type(e).__name__, str(e)[:80])})
+  return {'case': dict(case, onehot=False), 'expected': expected, 'refused': False, 'ncols': expected['ncols'], 'rows': rows, 'decoded': decoded,
+          'param': fkey.space_record(sp1)[0], 'zero': fkey.key(0.0), 'one': fkey.key(1.0), 'lo01': fkey.key(-1.0), 'hi01': fkey.key(2.0), 'model_input': True}
+
+
 def labels(ctx):
   """Objective labels converted to model form and back return the original values under either sign convention."""
   from vizier import pyvizier as vz
@@ -160,6 +220,26 @@ def labels(ctx):
           ctx.violation({'via': 'labels', 'goal': goal, 'flip': flip}, {'kind': 'labels', 'values': vals, 'came_back': got})
         if flip and goal == 'MINIMIZE' and not np.allclose(arr[:, 0], [-v for v in vals]):
           ctx.violation({'via': 'labels', 'what': 'sign_not_flipped', 'goal': goal}, {'kind': 'labels', 'values': vals, 'array': arr[:, 0].tolist()})
+  # the model-input converters build their label converters themselves: with dtype=float64 the labels must be exact
+  prob = vz.ProblemStatement()
+  prob.search_space.root.add_float_param('x', 0.0, 1.0)
+  vals = [0.1, 16777217.0, -1.5, 0.0, 1e-9]
+  for goal in ('MAXIMIZE', 'MINIMIZE'):
+    for flip in (False, True):
+      pr = vz.ProblemStatement(prob.search_space, metric_information=[vz.MetricInformation('m', goal=getattr(vz.ObjectiveMetricGoal, goal))])
+      cc = converters.TrialToContinuousAndCategoricalConverter.from_study_config(pr, flip_sign_for_minimization_metrics=flip, dtype=np.float64)
+      ts = []
+      for v in vals:
+        t = vz.Trial(parameters={'x': 0.5})
+        t.complete(vz.Measurement(metrics={'m': v}))
+        ts.append(t)
+      lab = np.asarray(cc.to_labels(ts))
+      n += 1
+      sign = -1.0 if (flip and goal == 'MINIMIZE') else 1.0
+      back = [t.final_measurement.metrics['m'].value for t in cc.to_trials(cc.to_features(ts), lab)]
+      if lab.dtype != np.float64 or [float(x) for x in lab[:, 0]] != [sign * v for v in vals] or back != vals:
+        ctx.violation({'via': 'labels', 'converter': 'TrialToContinuousAndCategoricalConverter', 'goal': goal, 'flip': flip},
+                      {'kind': 'labels', 'values': vals, 'labels': [float(x) for x in lab[:, 0]], 'dtype': str(lab.dtype), 'came_back': back})
   return n
 
 
@@ -179,9 +259,21 @@ def run(ctx):
       except Exception as e:  # pylint: disable=broad-except
         obs.append({'case': r['case'], 'expected': r['expected'], 'refused': True, 'ncols': 0, 'rows': [], 'decoded': [],
                     'param': {'type': 'NONE'}, 'zero': fkey.key(0.0), 'one': fkey.key(1.0), 'lo01': fkey.key(0.0), 'hi01': fkey.key(1.0), 'error': '%s: %s' % (type(e).__name__, str(e)[:120])})
+    # the same cases through the model-input converters (no one-hot; 'pad' = feature / trial padding)
+    mi_cases = [r for r in cases if not r['case']['onehot']]
+    if not ctx.thorough:
+      mi_cases = [r for r in mi_cases if r['case']['shape']['name'] != 'D_class' or rng.random() < 0.3]
+    n_core = len(obs)
+    for r in mi_cases:
+      try:
+        obs.append(observe_model_input(r['case'], r['expected'], rng))
+      except Exception as e:  # pylint: disable=broad-except
+        obs.append({'case': r['case'], 'expected': r['expected'], 'refused': True, 'ncols': 0, 'rows': [], 'decoded': [],
+                    'param': {'type': 'NONE'}, 'zero': fkey.key(0.0), 'one': fkey.key(1.0), 'lo01': fkey.key(0.0), 'hi01': fkey.key(1.0), 'model_input': True,
+                    'error': '%s: %s' % (type(e).__name__, str(e)[:120])})
     path = os.path.join(d, 'cv_obs.json')
     with open(path, 'w') as f:
-      json.dump(obs, f)
+      json.dump([{k: v for k, v in o.items() if k != 'model_input'} for o in obs], f)
     cfg2 = os.path.join(d, 'CV_judge.cfg')
     tlc.write_cfg(cfg2, spec='JSpec', constants={'Mode': 'judge'})
     res2 = tlc.must_ok(tlc.run_tlc('Converter', cfg2, d, workers=1, env={'TRACE_FILE': path}), 'Converter/judge')
@@ -194,7 +286,7 @@ def run(ctx):
     counts[v] += 1
     if v != 'ok':
       c = o['case']
-      ctx.violation({'via': 'converter', 'verdict': v, 'shape': c['shape']['name'], 'scale': c['scale']},
+      ctx.violation({'via': 'model-input-converter' if o.get('model_input') else 'converter', 'verdict': v, 'shape': c['shape']['name'], 'scale': c['scale']},
                     {'kind': 'converter', 'case': c, 'expected': o['expected'], 'ncols': o['ncols'], 'error': o.get('error'),
                      'decoded_missing': [k for k, x in enumerate(o['decoded']) if not x['present']]})
   nlab = labels(ctx)
